@@ -19,6 +19,7 @@ import M4riProofs.GaussOK
 import M4riProofs.Solve
 import M4riProofs.MathlibSpec
 import M4riProofs.Top
+import M4riProofs.GenTieSolve
 namespace M4ri.Props.C07
 open M4ri M4ri.BMat
 
@@ -57,5 +58,9 @@ theorem kernel_tests_sound {A K : BMat} (hA : A.WF) (hK : K.WF) (h1 : K.nrows = 
 #check @M4ri.BMat.G2.kernelLeftPluq_none_iff
 #check @M4ri.BMat.G2.kernelLeftPluq_some
 #check @M4ri.BMat.G2.kernelLeftPluq_basis
+
+
+/-! ### tie to the C text (GenTieSolve.lean) -/
+#check @M4ri.GenTieSolve.mzdIsZero_window
 
 end M4ri.Props.C07
